@@ -31,9 +31,10 @@ def configs(tier):
     return out
 
 
-def _mk(kind, B, hetero=None):
+def _mk(kind, B, hetero=None, dk_both=False):
     import jinns
     from jinns.parameters import Params
+    from jinns.parameters._derivative_keys import DerivativeKeysODE, DerivativeKeysPDEStatio, DerivativeKeysPDENonStatio
     from jinns.loss import LossODE, LossPDEStatio, LossPDENonStatio, ODE, PDEStatio, PDENonStatio
     from jinns.data._Batchs import ODEBatch, PDEStatioBatch, PDENonStatioBatch
     ot_theta = lambda i, o, p: o * p.eq_params["theta"]
@@ -46,22 +47,25 @@ def _mk(kind, B, hetero=None):
         class Eq(ODE):
             def equation(self, t, u, p):
                 return jnp.array([psi(0)(u(t, p)[0] + 2.0 * sc(p.eq_params["kappa"]) + 3.0 * sc(p.eq_params["mu"]) + 0.5 * sc(t))])
-        loss = LossODE(u=u, dynamic_loss=Eq(Tmax=1, eq_params_heterogeneity=hetero), initial_condition=(jnp.array(0.25), jnp.array([0.5])), params=params)
+        dkw = dict(derivative_keys=DerivativeKeysODE.from_str(params, dyn_loss="both", observations="both", initial_condition="both")) if dk_both else {}
+        loss = LossODE(u=u, dynamic_loss=Eq(Tmax=1, eq_params_heterogeneity=hetero), initial_condition=(jnp.array(0.25), jnp.array([0.5])), params=params, **dkw)
         obs = {"pinn_in": jnp.arange(1, B + 1).reshape(B, 1) * 0.125, "val": jnp.arange(1, B + 1).reshape(B, 1) * 0.25, "eq_params": {}}
         batch = ODEBatch(temporal_batch=jnp.arange(1, B + 1) * 0.2, obs_batch_dict=obs)
     elif kind == "statio":
         class Eq(PDEStatio):
             def equation(self, x, u, p):
                 return jnp.array([psi(0)(u(x, p)[0] + 2.0 * sc(p.eq_params["kappa"]) + 3.0 * sc(p.eq_params["mu"]) + 0.5 * x[0])])
-        loss = LossPDEStatio(u=u, dynamic_loss=Eq(Tmax=1, eq_params_heterogeneity=hetero), omega_boundary_fun=lambda dx: 0.5, omega_boundary_condition="dirichlet", params=params)
+        dkw = dict(derivative_keys=DerivativeKeysPDEStatio.from_str(params, dyn_loss="both", observations="both", boundary_loss="both", norm_loss="both")) if dk_both else {}
+        loss = LossPDEStatio(u=u, dynamic_loss=Eq(Tmax=1, eq_params_heterogeneity=hetero), omega_boundary_fun=lambda dx: 0.5, omega_boundary_condition="dirichlet", params=params, **dkw)
         obs = {"pinn_in": jnp.arange(1, B + 1).reshape(B, 1) * 0.125, "val": jnp.arange(1, B + 1).reshape(B, 1) * 0.25, "eq_params": {}}
         batch = PDEStatioBatch(inside_batch=jnp.arange(1, B + 1).reshape(B, 1) * 0.2, border_batch=jnp.arange(1, 2 * B + 1).reshape(B, 1, 2) * 0.15, obs_batch_dict=obs)
     else:
         class Eq(PDENonStatio):
             def equation(self, t, x, u, p):
                 return jnp.array([psi(0)(u(t, x, p)[0] + 2.0 * sc(p.eq_params["kappa"]) + 3.0 * sc(p.eq_params["mu"]) + 0.5 * t[0] + 0.25 * x[0])])
+        dkw = dict(derivative_keys=DerivativeKeysPDENonStatio.from_str(params, dyn_loss="both", observations="both", boundary_loss="both", norm_loss="both", initial_condition="both")) if dk_both else {}
         loss = LossPDENonStatio(u=u, dynamic_loss=Eq(Tmax=1, eq_params_heterogeneity=hetero), omega_boundary_fun=lambda t, dx: 0.5, omega_boundary_condition="dirichlet",
-                                initial_condition_fun=lambda x: 0.25 * x[0], params=params)
+                                initial_condition_fun=lambda x: 0.25 * x[0], params=params, **dkw)
         obs = {"pinn_in": jnp.arange(1, 2 * B + 1).reshape(B, 2) * 0.125, "val": jnp.arange(1, B + 1).reshape(B, 1) * 0.25, "eq_params": {}}
         batch = PDENonStatioBatch(times_x_inside_batch=jnp.arange(1, 2 * B + 1).reshape(B, 2) * 0.2,
                                   times_x_border_batch=jnp.arange(1, 4 * B + 1).reshape(B, 2, 2) * 0.15, obs_batch_dict=obs)
@@ -74,7 +78,7 @@ def run(cfg, R):
     half, quarter = const(Fraction(1, 2), "Real"), const(Fraction(1, 4), "Real")
     if part == "batch":
         batched = cfg["batched"]
-        u, params, loss, batch = _mk(kind, B)
+        u, params, loss, batch = _mk(kind, B, dk_both=True)
         pb = {k: (jnp.arange(1, B + 1).reshape(B, 1) * 0.3 + 0.1 * i) for i, k in enumerate(KEYS) if k in batched}
         batch = eqx.tree_at(lambda b: b.param_batch_dict, batch, pb if pb else None, is_leaf=lambda x: x is None)
         hetero = False
@@ -82,11 +86,11 @@ def run(cfg, R):
         # theta and kappa are heterogeneous (functions of the current point and of the raw parameters); mu is undeclared
         batched = []
         if kind == "ode":
-            het = {"theta": lambda t, u, p: p.eq_params["theta"] * psi(1)(0.5 * jnp.ravel(t)[0]), "kappa": lambda t, u, p: psi(2)(p.eq_params["kappa"] + 0.25 * jnp.ravel(t)[0])}
+            het = {"theta": lambda t, u, p: p.eq_params["theta"] * psi(1)(0.5 * jnp.ravel(t)[0] + p.eq_params["kappa"]), "kappa": lambda t, u, p: psi(2)(p.eq_params["kappa"] + 0.25 * jnp.ravel(t)[0] + p.eq_params["theta"])}
         elif kind == "statio":
-            het = {"theta": lambda x, u, p: p.eq_params["theta"] * psi(1)(0.5 * x[0]), "kappa": lambda x, u, p: psi(2)(p.eq_params["kappa"] + 0.25 * x[0])}
+            het = {"theta": lambda x, u, p: p.eq_params["theta"] * psi(1)(0.5 * x[0] + p.eq_params["kappa"]), "kappa": lambda x, u, p: psi(2)(p.eq_params["kappa"] + 0.25 * x[0] + p.eq_params["theta"])}
         else:
-            het = {"theta": lambda t, x, u, p: p.eq_params["theta"] * psi(1)(0.5 * t[0] + 2.0 * x[0]), "kappa": lambda t, x, u, p: psi(2)(p.eq_params["kappa"] + 0.25 * t[0] + 3.0 * x[0])}
+            het = {"theta": lambda t, x, u, p: p.eq_params["theta"] * psi(1)(0.5 * t[0] + 2.0 * x[0] + p.eq_params["kappa"]), "kappa": lambda t, x, u, p: psi(2)(p.eq_params["kappa"] + 0.25 * t[0] + 3.0 * x[0] + p.eq_params["theta"])}
         u, params, loss, batch = _mk(kind, B, hetero=het)
         hetero = True
     name = f"{part}/{kind}/{'+'.join(batched) if batched else 'none'}"
@@ -94,7 +98,27 @@ def run(cfg, R):
     R.note(functions=["jinns.parameters._params._update_eq_params_dict", "_get_vmap_in_axes_params", "jinns.loss._DynamicLossAbstract._decorator_heteregeneous_params",
                       "DynamicLoss._eval_heterogeneous_parameters", "jinns.loss.%s.evaluate" % {"ode": "LossODE", "statio": "LossPDEStatio", "nonstatio": "LossPDENonStatio"}[kind],
                       "boundary_dirichlet_*[PINN]", "initial_condition_apply", "observations_loss_apply"])
-    f = lambda loss, params, batch: (loss.evaluate(params, batch), params)
+    bfield = {"ode": "temporal_batch", "statio": "inside_batch", "nonstatio": "times_x_inside_batch"}[kind]
+
+    def ref_dyn(loss, p, batch):
+        """mean over samples of the dynamic term of ONE sample evaluated with its own parameter rows and no parameter batch"""
+        tot = 0.0
+        for i in range(B):
+            pi = p
+            for k in batched:
+                pi = eqx.tree_at(lambda q, k=k: q.eq_params[k], pi, batch.param_batch_dict[k][i, 0])
+            bi = eqx.tree_at(lambda b: (getattr(b, bfield), b.param_batch_dict, b.obs_batch_dict), batch,
+                             (getattr(batch, bfield)[i:i + 1], None, None), is_leaf=lambda x: x is None)
+            tot = tot + loss.evaluate(pi, bi)[1]["dyn_loss"]
+        return tot / B
+
+    def f(loss, params, batch):
+        out = (loss.evaluate(params, batch), params)
+        if part == "batch" and batched:
+            g = jax.grad(lambda p: loss.evaluate(p, batch)[1]["dyn_loss"])(params)
+            gref = jax.grad(lambda p: ref_dyn(loss, p, batch))(params)
+            return out + (g, gref)
+        return out
     tr = R.trace(name, f, (loss, params, batch), key=key + ":raises")
     if tr is None: return
 
@@ -118,14 +142,15 @@ def run(cfg, R):
                 if kind == "ode": a1 = mul(half, z[0]); a2 = add(ka, mul(quarter, z[0]))
                 elif kind == "statio": a1 = mul(half, z[0]); a2 = add(ka, mul(quarter, z[0]))
                 else: a1 = add(mul(half, z[0]), mul(const(2, "Real"), z[1])); a2 = add(add(ka, mul(quarter, z[0])), mul(const(3, "Real"), z[1]))
-                th = mul(th, uf("psi1_0", a1)); ka = uf("psi2_0", a2)
+                # each map reads the RAW value of the other heterogeneous key
+                th, ka = mul(th, uf("psi1_0", add(a1, ka))), uf("psi2_0", add(a2, th))
             arg = add(add(add(mul(D(net, z), th), mul(const(2, "Real"), ka)), mul(const(3, "Real"), mu)), lin)
             rows.append(sq(uf("psi0_0", arg)))
         out["dyn_loss"] = mean(rows)
         def th_raw(i):
             t = val(A, "theta", i, shift)
             if hetero and het_everywhere:
-                return mul(t, uf("psi1_0", const(0, "Real")))
+                return mul(t, uf("psi1_0", val(A, "kappa", i, shift)))
             return t
         if kind == "ode":
             t0, u0 = loss_.initial_condition
@@ -149,7 +174,7 @@ def run(cfg, R):
         return out
 
     def goals(A, O):
-        (total, terms), p_after = O
+        (total, terms), p_after = O[0], O[1]
         want = oracle(A)
         G = [(f"{t} evaluates sample i with row i of every batched key and the caller's value otherwise" if not hetero else
               f"{t}: heterogeneous parameters replaced inside the equation only", eq(terms[t][()], w)) for t, w in want.items()]
@@ -158,11 +183,20 @@ def run(cfg, R):
         G.append(("the caller's parameters are returned unchanged (shapes)", const(same, "Bool")))
         if same:
             G.append(("the caller's parameters are returned unchanged (values)", tm.conj([eq(p_after.eq_params[k][()], p_before.eq_params[k][()]) for k in KEYS])))
+        if len(O) == 4:
+            from ..harness import flat_terms
+            g, gref = O[2], O[3]
+            G.append(("gradient routing: d dyn_loss/d nn_params with a parameter batch == per-sample reference", tm.conj([eq(a, b) for a, b in zip(flat_terms(g.nn_params), flat_terms(gref.nn_params))])))
+            for k in KEYS:
+                G.append((f"gradient routing: d dyn_loss/d {k} (caller's value) with a parameter batch == per-sample reference", eq(g.eq_params[k][()], gref.eq_params[k][()])))
         return G
 
     def twins(A, O):
-        (total, terms), _ = O
+        (total, terms) = O[0]
         tw = []
+        if len(O) == 4:
+            unb = [k for k in ("kappa", "mu") if k not in batched]
+            if unb: tw.append((f"d dyn_loss/d {unb[0]} == 0 although selected and not batched", eq(O[2].eq_params[unb[0]][()], const(0, "Real"))))
         if batched and B > 1:
             w = oracle(A, shift=1)
             tw.append(("dyn_loss == oracle using row i+1 for sample i", eq(terms["dyn_loss"][()], w["dyn_loss"])))
